@@ -1,5 +1,6 @@
 (* ExportProofs.v -- C17: a failed or refused export leaves no trace (effects of
    write / write_stream, in the order regenerated from the source). *)
+From Coq Require Import Lia.
 From Torf Require Import Base Bencode PyVal Extracted Convert Validate Export.
 Open Scope Z_scope.
 
@@ -56,15 +57,38 @@ Lemma write_stream_cases fs v md s r s' :
   write_stream is_url fs v md s = (r, s') ->
   (exists e, dump is_url fs v md = Err e /\ r = Err e /\ s' = s) \/
   (exists c, dump is_url fs v md = Ok c /\
-     ((r = Ok tt /\ ss_content s' = (if ss_seekable s then [] else ss_content s) ++ c) \/
+     ((r = Ok tt /\
+       ss_content s' = (if ss_seekable s then c else write_at (ss_content s) (ss_pos s) c) /\
+       ss_pos s' = (if ss_seekable s then 0 else ss_pos s) + Z.of_nat (length c)) \/
       (r = Err DWrite /\ ss_fail s = true /\
        ss_content s' = (if ss_seekable s then [] else ss_content s)))).
 Proof.
   unfold write_stream. cbn [ex_write_stream_steps].
   destruct (dump is_url fs v md) as [c|e]; [|intros H; inversion H; left; eexists; auto].
   intros H. right. exists c. split; [reflexivity|].
-  destruct (ss_seekable s) eqn:Es; cbn [ss_seekable ss_fail ss_content] in H.
-  - destruct (ss_fail s) eqn:Ef; inversion H; subst; cbn; auto.
-  - destruct (ss_fail s) eqn:Ef; inversion H; subst; cbn; auto.
+  destruct (ss_seekable s) eqn:Es; cbn [ss_seekable ss_fail ss_content ss_pos] in H.
+  - destruct (ss_fail s) eqn:Ef; inversion H; subst; cbn [ss_content ss_pos]; [right; auto|left].
+    split; [reflexivity|]. split; [|reflexivity].
+    unfold write_at. cbn [Z.to_nat firstn length Nat.sub repeat app Nat.add]. rewrite skipn_nil, app_nil_r. reflexivity.
+  - destruct (ss_fail s) eqn:Ef; inversion H; subst; cbn [ss_content ss_pos]; auto.
 Qed.
+
+(* whatever a seekable stream held before, and wherever its position was, a successful export leaves
+   exactly the dumped bytes in it *)
+Lemma write_stream_seekable_exact fs v md s s' :
+  ss_seekable s = true -> write_stream is_url fs v md s = (Ok tt, s') ->
+  exists c, dump is_url fs v md = Ok c /\ ss_content s' = c.
+Proof.
+  intros Hs H. destruct (write_stream_cases fs v md s (Ok tt) s' H) as [(e & _ & E & _)|(c & Hd & [(_ & Hc & _)|(E & _)])]; try discriminate E.
+  exists c. split; [exact Hd|]. rewrite Hs in Hc. exact Hc.
+Qed.
+
+(* a stream that is not seekable and appends (position = end of what it already holds) keeps its content
+   and gets the dumped bytes after it *)
+Lemma write_at_end old c : write_at old (Z.of_nat (length old)) c = old ++ c.
+Proof.
+  unfold write_at. rewrite Nat2Z.id, firstn_all, Nat.sub_diag. cbn [repeat app].
+  rewrite skipn_all2 by lia. rewrite app_nil_r. reflexivity.
+Qed.
+
 End Exp.
